@@ -23,7 +23,7 @@ class Rec:
     object.__setattr__(self, '_f', tuple(kw.items()))
 
   def __getattr__(self, name):       # only reached when normal lookup fails
-    if name.startswith('_'):
+    if name == '_f' or (name.startswith('__') and name.endswith('__')):   # own slot / protocol probes
       raise AttributeError(name)
     for k, v in self._f:
       if k == name:
